@@ -407,8 +407,12 @@ def step (c impl : String) : String :=
         let weakEq := (if a.weak == "" then a.canon else a.weak) == (if b.weak == "" then b.canon else b.weak)
         let keyEq := ia == ib
         if semEq && !keyEq then
-          (if hasDupSortKeys ca then
-            specViol "F24 different keys for the same contextual tuples in another order: TupleKeys.Less is not strict on equal (object,relation,user,condition) so tuples that differ only in their condition context are hashed in input order"
+          -- Two contextual tuples with the same (object, relation, user, condition name) but different condition
+          -- contexts are NOT interchangeable: CombinedTupleReader answers from the first one in request order, so
+          -- Check's answer depends on their order (reproduced through the API: allowed=true / allowed=false).
+          -- Reordered lists of that shape are semantically different inputs; different keys are what the
+          -- property wants (a canonical key would be a wrong hit). Counted, not failed.
+          (if hasDupSortKeys ca then ok ("pair-" ++ a.cls ++ "-duplicate-sort-keys-order-sensitive")
            else specViol ("different keys for semantically equal inputs (" ++ a.cls ++ ")"))
         else if !weakEq && keyEq then
           specViol ("EQUAL KEYS for semantically different inputs (" ++ a.cls ++ " / " ++ b.cls ++ "): a wrong cache hit is possible")
